@@ -1,0 +1,18 @@
+//go:build verif
+
+// Contracts for package bodyprocessors: the raw request body processor (C03, C20), checked by /verif/govc
+// (comment-only file; no code). Trusted library contracts: /verif/specs/reqdata.spec, reqdata2.spec, http.spec.
+package bodyprocessors
+
+// raw request body (C03): REQUEST_BODY is exactly the bytes the reader delivered (rest(ioVer, reader): what the
+// reader still had to deliver at the call), byte for byte and undecoded (`bodyExact`, stated where REQUEST_BODY_LENGTH
+// is about to be set, and `stored` for the value passed); REQUEST_BODY_LENGTH is the decimal count of those bytes
+// (`lengthOfBody`); a read error is returned, never swallowed (`copyErrorReturned`: a nil result means that the
+// whole remaining content was read) (C20).
+//@ func (*rawBodyProcessor).ProcessRequest props C03,C20,C07
+//@   requires vNotNil: !isnil(v)
+//@   at call "Set(strconv.Itoa(len(b)))" requires stored: payload(txvRequestBody(old(v)), "*collections.Single").data == b
+//@   at call "Set(strconv.Itoa(len(b)))" requires bodyExact: b == rest(old(ioVer), old(reader)) && arg(1) == itoa(len(rest(old(ioVer), old(reader))))
+//@   ensures lengthOfBody: isnil(result) ==> payload(txvRequestBodyLength(v), "*collections.Single").data ==
+//@       itoa(len(payload(txvRequestBody(v), "*collections.Single").data))
+//@   ensures bodyIsInput: isnil(result) ==> payload(txvRequestBody(v), "*collections.Single").data == rest(old(ioVer), reader)
